@@ -71,7 +71,43 @@ def jtree_term(node):
     return '(JMap [' + '; '.join(f'({jtree_term(k)}, {jtree_term(v)})' for k, v in node.value) + '])'
 
 
+class W:
+    """A class whose _yatiml_sweeten writes scalars through the Node API: those nodes carry the texts the helpers choose
+    (a null node's text is '' rather than 'null'), unlike nodes built by the representer."""
+    def __init__(self, name: str, payload=None) -> None:
+        self.name = name
+        self.payload = payload
+
+    def __repr__(self) -> str:
+        return f'W({self.name!r}, {self.payload!r})'
+
+    @classmethod
+    def _yatiml_sweeten(cls, node) -> None:
+        node.set_attribute('q', None)
+        node.set_attribute('n', 5)
+        node.set_attribute('f', 2.5)
+        node.set_attribute('t', True)
+        node.set_attribute('s', 'null')
+
+
+class W2:
+    def __init__(self, a: str) -> None:
+        self.a = a
+
+    def __repr__(self) -> str:
+        return f'W2({self.a!r})'
+
+    @classmethod
+    def _yatiml_sweeten(cls, node) -> None:
+        node.set_attribute('a', None)           # replaces an existing attribute by null
+        node.set_attribute('z', False)
+
+
 def jproj(v):
+    if isinstance(v, W):
+        return {'name': v.name, 'payload': jproj(v.payload), 'q': None, 'n': 5, 'f': 2.5, 't': True, 's': 'null'}
+    if isinstance(v, W2):
+        return {'a': None, 'z': False}
     if isinstance(v, (datetime.date, datetime.datetime)):
         return v.isoformat(' ') if isinstance(v, datetime.datetime) else v.isoformat()
     if isinstance(v, list):
@@ -130,6 +166,8 @@ def strings_of(v):
         for k, x in v.items():
             yield from strings_of(k)
             yield from strings_of(x)
+    elif isinstance(v, (W, W2)):
+        yield from strings_of(jproj(v))
 
 
 def gen_values(ctx):
@@ -169,9 +207,11 @@ def rand_value(rnd, pool, depth):
 
 def tie(ctx, model_ok=True):
     import yatiml
-    dumps = yatiml.dumps_json_function()
+    dumps = yatiml.dumps_json_function(W, W2)
     rep = dumps.dumper(None, None, False, None, None, None, None, None, None, None, None, None, None, False)
     vals, nex = gen_values(ctx)
+    # nodes written by sweeten functions through the Node API
+    vals += [W('a'), W2('x'), [W('a'), W('b', [None, W2('c')])], {'k': W('a', {'x': None}), 'l': [W2('')]}, W('', W('in', 1.5))]
     indents = [None, 0, 1, 2, 3, 4, 5, 6, 7, 8]
     res = {'evaluations': 0, 'disagreements': [], 'failing': [], 'samples': [], 'exhaustive': True,
            'rule': (f'ALL plain trees with <= {4 if ctx["tier"] == "quick" else 6} nodes over leaves {LEAVES!r}, [] and {{}} '
@@ -221,7 +261,7 @@ def tie(ctx, model_ok=True):
         except RuntimeError:
             aborted = True
         res['evaluations'] += 1
-        for fn_name, fn in (('same function', dumps), ('new function', yatiml.dumps_json_function())):
+        for fn_name, fn in (('same function', dumps), ('new function', yatiml.dumps_json_function(W, W2))):
             for p, b in zip(probes, before):
                 try:
                     now = fn(p)
@@ -247,8 +287,8 @@ def search(ctx, broken, details, tie_res):
 
 def replay(case):
     import yatiml
-    dumps = yatiml.dumps_json_function()
-    v = eval(case['value'], {'datetime': datetime, 'inf': math.inf, 'nan': math.nan})
+    dumps = yatiml.dumps_json_function(W, W2)
+    v = eval(case['value'], {'datetime': datetime, 'inf': math.inf, 'nan': math.nan, 'W': W, 'W2': W2})
     if case.get('after_abort'):
         want = dumps(v)
         shared = [1, 2]
@@ -256,7 +296,7 @@ def replay(case):
             dumps({'a': shared, 'b': shared})
         except RuntimeError:
             pass
-        return dumps(v) != want or yatiml.dumps_json_function()(v) != want
+        return dumps(v) != want or yatiml.dumps_json_function(W, W2)(v) != want
     text = dumps(v, indent=case['indent'], ensure_ascii=case['ensure_ascii'])
     o = oracle(v, case['indent'], case['ensure_ascii'], text)
     if o:
